@@ -292,6 +292,10 @@ func (c *compiler) compileType(y *Type, parent Leafable, isUnion bool) error {
 			// cannot share the type object of the copy compiled before it
 			own := *y
 			if err := c.resolveLeafref(&own, parent); err != nil {
+				if _, inTypedef := parent.(*Typedef); inTypedef {
+					// see below: the path of a typedef need not lead anywhere from the typedef
+					return nil
+				}
 				return err
 			}
 			if _, isList := parent.(*LeafList); isList {
@@ -324,7 +328,12 @@ func (c *compiler) compileType(y *Type, parent Leafable, isUnion bool) error {
 
 	if y.format == val.FmtLeafRef || y.format == val.FmtLeafRefList {
 		if err := c.resolveLeafref(y, parent); err != nil {
-			return err
+			if _, inTypedef := parent.(*Typedef); !inTypedef {
+				return err
+			}
+			// a relative path in a typedef leads somewhere from the leaves that use the
+			// typedef, each of which resolves it for itself; from the typedef it need not
+			y.delegate = y
 		}
 	} else {
 		y.delegate = y
